@@ -46,6 +46,21 @@ func Catalogue() map[string]Script {
 		mk("c01:late-reply-after-cancel", 4, 10, res(0, 1), start(0), wok(0), cancel(0), reply(0, 100),
 			res(1, 1), start(1), wok(1), reply(0, 1000), reply(1, 101))
 		mk("c02:runt-datagram-then-reply", 4, 0, res(0, 1), start(0), wok(0), Action{K: ARunt, Tag: 5}, reply(0, 100), res(1, 1), start(1), wok(1), Action{K: ARunt, Tag: 11}, Action{K: ARunt, Tag: 1}, reply(1, 101))
+		// the reader is parked between looking up the waiter and handing the reply over
+		hold := func(c, tag int) Action { return Action{K: AFeedHoldReply, C: c, Tag: tag} }
+		rgo := Action{K: AReaderGo}
+		mk("c01:reader-parked-waiter-cancelled-next-call", 4, 0, res(0, 0xbbbb), start(0), wok(0), hold(0, 100), cancel(0),
+			res(1, 0xcccc), start(1), wok(1), rgo, reply(1, 101))
+		mk("c01:reader-parked-two-callers", 4, 7, res(0, 1), res(1, 2), start(0), start(1), wok(0), wok(1), hold(1, 101), cancel(1),
+			res(2, 3), start(2), wok(2), rgo, reply(0, 100), reply(2, 102))
+		mk("c02:reader-parked-then-delivers", 4, 7, res(0, 11), start(0), wok(0), hold(0, 100), rgo)
+		// the last bytes of the reply come back from Read together with EOF (TLS close_notify behind the data)
+		mk("c02:reply-bytes-with-eof", 4, 7, res(0, 11), start(0), wok(0), Action{K: AFeedEofReply, C: 0, Tag: 100})
+		mk("c02:reply-bytes-with-eof-before-wait", 4, 7, res(0, 11), res(1, 12), start(0), start(1), whold(0), wok(1),
+			Action{K: AFeedEofReply, C: 0, Tag: 100}, rel(0))
+		// duplicate replies while the owner has not taken the first one must not stall the reader
+		mk("c02:duplicate-replies-do-not-stall-the-reader", 4, 0, res(0, 1), res(1, 2), start(0), start(1), whold(0), wok(1),
+			reply(0, 100), reply(0, 1000), reply(0, 1001), reply(1, 101))
 		mk("c01:wrap", 4, 65535, res(0, 9), res(1, 9), res(2, 9), start(0), start(1), start(2), wok(0), wok(1), wok(2),
 			reply(1, 101), reply(2, 102), reply(0, 100))
 		mk("c01:skip-taken-ids", 8, 0, res(0, 1), res(1, 2), start(0), start(1), wok(0), wok(1), setq(0),
@@ -120,7 +135,7 @@ func RandomNext(r *hx.RNG, focus string, maxSteps int) (Script, func(v *View) *A
 			if w == nil {
 				w = []int{10, 2, 12, 12, 4, 16, 3, 3, 2, 5, 1, 1}
 			}
-			w = append(append([]int{}, w...), 2) // runt datagram (UDP scripts only)
+			w = append(append([]int{}, w...), 2, 3, 2, 1) // runt datagram (UDP only), parked reader: hold / go, reply+EOF (TCP only)
 			tot := 0
 			for _, x := range w {
 				tot += x
@@ -166,9 +181,17 @@ func RandomNext(r *hx.RNG, focus string, maxSteps int) (Script, func(v *View) *A
 				a = Action{K: AExpire}
 			case 12:
 				a = Action{K: ARunt, Tag: r.Range(1, 11)}
+			case 13:
+				tag++
+				a = Action{K: AFeedHoldReply, C: c, Tag: tag}
+			case 14:
+				a = Action{K: AReaderGo}
+			case 15:
+				tag++
+				a = Action{K: AFeedEofReply, C: c, Tag: tag}
 			}
 			// reserve picks the next unused call id; the others pick among existing ones
-			if a.K != AReserve && a.K != AFeedStray && a.K != AFeedErr && a.K != AClose && a.K != ASetQid && a.K != AExpire && a.K != ARunt {
+			if a.K != AReserve && a.K != AFeedStray && a.K != AFeedErr && a.K != AClose && a.K != ASetQid && a.K != AExpire && a.K != ARunt && a.K != AReaderGo {
 				if nextCall == 0 {
 					continue
 				}
